@@ -62,7 +62,7 @@ pub fn is_readonly(op: &Op) -> bool {
 
 fn boundary(i: Idx, len: usize) -> bool {
     let v = i.resolve(len);
-    v + 1 >= len || matches!(i, Idx::Max(_))
+    v.saturating_add(1) >= len || matches!(i, Idx::Max(_))
 }
 
 pub(crate) fn run_case_impl(case: &Case, opts: Opts) -> Result<Outcome, Failure> {
